@@ -61,6 +61,10 @@ func (m *machine) eval(e wgen.Expr) Value {
 		m.discrete(iv)
 		m.op("index")
 		i, ok := indexOf(iv, len(base.E))
+		if !ok && m.cfg.ClampOOB && len(base.E) > 0 {
+			m.ev.OOB++
+			return base.E[m.clampIndex(iv, len(base.E))]
+		}
 		if !ok {
 			m.ev.OOB++
 			if m.cfg.ZeroOOBReads || len(base.E) == 0 {
